@@ -149,6 +149,9 @@ partial def event (sm : Sim) (ev : String) (nested : Bool := false) : Sim :=
     | ["acc"] => (sm.op .accept).settle
     | "rx" :: k :: msgs => (sm.op (.rx (k.toNat?.getD 0) (.data (msgs.map parseMsg)))).settle
     | ["rxraw", k, _] => (sm.op (.rx (k.toNat?.getD 0) .touch)).settle
+    | ["rxcut", k, _, m1, m2] =>
+      -- one read holding `m1` and the first octets of `m2`, the rest of `m2` in the next read
+      ((sm.op (.rx (k.toNat?.getD 0) (.data [parseMsg m1]))).settle.op (.rx (k.toNat?.getD 0) (.data [parseMsg m2]))).settle
     | ["eof", k] => (sm.op (.rx (k.toNat?.getD 0) .eof)).settle
     | ["rerr", k, kind] => (sm.op (.rx (k.toNat?.getD 0) (if kind == "soft" then .soft else .hard))).settle
     | ["wr", k, script] =>
